@@ -1544,17 +1544,20 @@ class Parameter(_ParameterBase):
         item in a list).
         """
         name = self.name
+        update_ref = None
         if obj is not None and self.allow_refs and obj._param__private.initialized:
             syncing = name in obj._param__private.syncing
             ref, deps, val, is_async = obj.param._resolve_ref(self, val)
             refs = obj._param__private.refs
+            # The link is only installed (or removed) once the value has
+            # been accepted, so that a rejected assignment has no effect.
             if ref is not None:
-                self.owner.param._update_ref(name, ref)
+                update_ref = partial(self.owner.param._update_ref, name, ref)
             elif name in refs and not syncing:
-                del refs[name]
-                if name in obj._param__private.async_refs:
-                    obj._param__private.async_refs.pop(name).cancel()
+                update_ref = partial(self.owner.param._update_ref, name, Undefined)
             if is_async or val is Undefined:
+                if update_ref is not None:
+                    update_ref()
                 return
 
         # Deprecated Number set_hook called here to avoid duplicating setter
@@ -1597,6 +1600,8 @@ class Parameter(_ParameterBase):
                     )
                 _old = obj._param__private.values.get(name, self.default)
                 obj._param__private.values[name] = val
+        if update_ref is not None:
+            update_ref()
         self._post_setter(obj, val)
 
         if obj is not None:
@@ -2155,8 +2160,13 @@ class Parameters:
             dep_obj = watcher.cls if watcher.inst is None else watcher.inst
             dep_obj.param.unwatch(watcher)
         self_.self._param__private.ref_watchers = []
-        refs = dict(self_.self._param__private.refs, **{name: ref})
-        deps = {name: resolve_ref(ref) for name, ref in refs.items()}
+        refs = dict(self_.self._param__private.refs)
+        if ref is Undefined:
+            # The link was overridden by a plain value
+            refs.pop(name, None)
+        else:
+            refs[name] = ref
+        deps = {name: resolve_ref(ref, self_[name].nested_refs) for name, ref in refs.items()}
         self_._setup_refs(deps)
         self_.self._param__private.refs = refs
 
